@@ -94,7 +94,8 @@ def create_request(
     # (on a copy: the caller's dict may go into other requests as well)
     if progress_token is not None:
         params = dict(params) if params is not None else {}
-        params["_meta"] = dict(params["_meta"]) if "_meta" in params else {}
+        # (a null "_meta" is taken for an absent one)
+        params["_meta"] = dict(params.get("_meta") or {})
         params["_meta"]["progressToken"] = progress_token
 
     return JSONRPCRequest(jsonrpc="2.0", id=id, method=method, params=params)
